@@ -1059,16 +1059,18 @@ def run_shard(pid, seed, shard, ncases, tier, extra):
             rng = case_rng(PID + "/" + stream, seed, shard, k)
             if stream == "bracket":
                 c = B.bracket_case(rng, tier); real = B.run_bracket(c); line = B.bracket_request(c)
-                res = B.bracket_monitor(c, real, hist)
+                res = B.bracket_monitor(c, real, hist) + B.scipy_bracket_monitor(c, real, hist)
             elif stream == "brent":
                 c = B.brent_case(rng, tier); real = B.run_brent(c); line = B.brent_request(c)
                 hadd(hist, "brent:fn:%s" % c["kind"].split("+")[0]); hadd(hist, "brent:brack:%s" % ("none" if c["brack"] is None else len(c["brack"])))
                 if c["box"] is not None:
                     hadd(hist, "brent:strict-range(+inf outside)")
                 res = B.brent_monitor("brent", c, real, hist, c["brack"] is None)
+                res += B.scipy_brent_monitor("brent", c, real, hist, lambda lg, c=c: B.recording(c["expr"], c["box"], lg), c["brack"])
             else:
                 c = B.lsp_case(rng, tier); real = B.run_lsp(c); line = B.lsp_request(c)
                 res = B.lsp_monitor(c, real, hist)
+                res += B.scipy_brent_monitor("linesearch", c, real, hist, lambda lg, c=c: B.along_recording(c, lg), None)
             evals += 1
             case = dict(ident(stream, k)); case.update({kk: (dsl.expr_sexp(v) if kk == "expr" else v) for kk, v in c.items()})
             case["result"] = {kk: v for kk, v in real.items() if kk not in ("log", "pts")}; case["nevals"] = len(real["log"])
@@ -1118,6 +1120,43 @@ def run_shard(pid, seed, shard, ncases, tier, extra):
             "samples": samples, "hist": hist}
 
 
+def brent_witnesses(hist):
+    """the three kernel-checked witnesses of Props/C08 (Brent section), reproduced on the real routines with the real
+    constants and replayed by the Float model: (1) a valley with a spike - the returned value is ABOVE a value the
+    bracket evaluated (`elif (fw > fb)` exit); (2) `bracket` raising "Too many iterations" (maxiter=2, f = -alpha);
+    (3) a NaN objective: the returned value is NaN, not <= the value at alpha = 0"""
+    X = ("x", 0)
+    out = []
+    # (alpha-2)^2 plus a wide spike over [1.1, 2.5]: f(0)=4 > f(1)=1 > f(2.618)=0.38, the parabola's vertex 2.0 is on the spike
+    spike = ("+", ("sq", ("-", X, ("c", 2.0))), ("*", ("c", 50.0), ("max", ("c", 0.0), ("-", ("c", 0.7), ("abs", ("-", X, ("c", 1.8)))))))
+    cases = []
+    c1 = {"kind": "witness-spike", "expr": spike, "box": None, "brack": None, "tol": 1e-2, "maxiter": 500}
+    r1 = B.run_brent(c1)
+    ok1 = r1["exc"] == "none" and any(v < r1["fval"] for _, v in r1["log"])
+    cases.append(("brent", c1, r1, ok1, "returned value %r is not above any evaluated value" % (r1.get("fval"),)))
+    c2 = {"kind": "witness-toomany", "expr": ("neg", X), "box": None, "xa": 0.0, "xb": 1.0, "grow": 110.0, "maxiter": 2}
+    r2 = B.run_bracket(c2)
+    ok2 = r2["exc"] == "tooMany" and len(r2["log"]) == 6
+    cases.append(("bracket", c2, r2, ok2, "bracket(maxiter=2) on -alpha: %s after %d evaluations" % (r2["exc"], len(r2["log"]))))
+    # 5 on [-0.5, 0.5], NaN elsewhere: E = max(0, |alpha| - 0.5) * 1e308 * 1e308 is 0 inside and inf outside, E - E is 0 / NaN
+    big = ("*", ("*", ("max", ("c", 0.0), ("-", ("abs", X), ("c", 0.5))), ("c", 1e308)), ("c", 1e308))
+    nanf = ("+", ("c", 5.0), ("-", big, big))
+    c3 = {"kind": "witness-nan", "expr": nanf, "box": None, "brack": None, "tol": 1e-2, "maxiter": 3}
+    r3 = B.run_brent(c3)
+    ok3 = r3["exc"] == "none" and r3["fval"] != r3["fval"] and r3["log"][0][1] == 5.0
+    cases.append(("brent", c3, r3, ok3, "f(0) = %r, returned %r" % (r3["log"][0][1] if r3["log"] else None, r3.get("fval"))))
+    lines = [B.brent_request(c) if st == "brent" else B.bracket_request(c) for st, c, _, _, _ in cases]
+    for (st, c, r, ok, what), rep in zip(cases, leandrv.run_driver(lines)):
+        case = {"stream": "witness", "kind": c["kind"], "cost": dsl.expr_sexp(c["expr"])}
+        if not ok:
+            out.append(Finding("correspondence", "brent/witness-not-reproduced/%s" % c["kind"], what, case))
+        res = B.brent_compare("brent", r, rep, hist) if st == "brent" else B.bracket_compare(c, r, rep, hist)
+        for key, w in res:
+            out.append(Finding("correspondence", key, w, case))
+        hadd(hist, "brent:witness:%s" % c["kind"])
+    return out
+
+
 def witnesses():
     """fixed cases run first on every invocation: the recorded known findings, re-confirmed on the implementation"""
     common.import_mystic()
@@ -1139,6 +1178,7 @@ def witnesses():
     for (o, case), rep in zip(obs, leandrv.run_driver(lines)):
         for key, what in strat_compare(o, rep):
             out.append(Finding("correspondence", key, what, case))
+    out += brent_witnesses(hist)
     c = {"dim": 2, "expr": ("sum", ("*", ("c", 100.0), ("sq", ("-", ("x", 1), ("sq", ("x", 0))))), ("sq", ("-", ("c", 1.0), ("x", 0)))),
          "x0": [1.0, 1.0], "xtol": 1e-4, "ftol": 1e-6, "maxiter": None, "maxfun": None, "direc": None}
     a = run_powell("mystic", c); b = run_powell("ref", c)
